@@ -369,7 +369,35 @@ func VerifC20Witness(mirror, size, broken int) {
 			}
 			mainFS.files[dir+"/"+torchwood.TilePath(t)] = d
 		}
-		edge := dir + "/" + torchwood.TilePath(tlog.Tile{H: torchwood.TileHeight, L: 0, N: 0, W: size})
+		// the right-edge tiles: for every set bit k of size, the stored tile that holds the hash of the
+		// complete subtree of height k ending the tree at that bit (computed here from the binary
+		// decomposition, not with torchwood.RightEdge)
+		var edges []string
+		for k, off := 62, int64(0); k >= 0; k-- {
+			if int64(size)&(1<<k) == 0 {
+				continue
+			}
+			n := off >> k
+			off += 1 << k
+			L := k / torchwood.TileHeight
+			N := (n << (k % torchwood.TileHeight)) >> torchwood.TileHeight
+			for _, t := range tlog.NewTiles(torchwood.TileHeight, 0, int64(size)) {
+				if t.L == L && t.N == N {
+					p := dir + "/" + torchwood.TilePath(t)
+					dup := false
+					for _, e := range edges {
+						dup = dup || e == p
+					}
+					if !dup {
+						edges = append(edges, p)
+					}
+				}
+			}
+		}
+		edge := edges[0]
+		if len(edges) > 1 {
+			edge = edges[verifConcretize(verifChoice("edge-tile", len(edges)))]
+		}
 		switch broken {
 		case 3:
 			d := append([]byte{}, mainFS.files[edge]...)
